@@ -324,33 +324,46 @@ Fixpoint transform_loop (k:appender_kind) (sv:string) (ss:list stmt) (xs:list va
 
 Definition internal_pair (k:string) (item:value) : value := VMap (map_put "key" (VStr k) (map_put "value" item [])).
 
-(* evalTransform.  The deferred function restores the scope variable and "." when they were bound when the
-   transform started (after the argument was evaluated). *)
+(* the scope variable once an iteration is over, as the source does it NOW (Gen.EvalTables): [saved] is the
+   binding the variable had before the iteration *)
+Definition after_iteration (k:sv_after) (sv:string) (saved:option value) (sc:scope) : outcome scope :=
+  let put (sc':scope) := match saved with Some v => sset sv v sc' | None => sc' end in
+  match k with
+  | SvDeleteThenRestore => Ok (put (sdel sv sc))
+  | SvDeleteOnly => Ok (sdel sv sc)
+  | SvRestoreOnly => Ok (put sc)
+  | SvLeak => Ok sc
+  | SvUnknown => Unmodelled
+  end.
+
+(* evalTransform.  The deferred function restores the scope variable (when the source does: transform_scopevar)
+   and "." when they were bound when the transform started (after the argument was evaluated). *)
 Definition eval_transform (sc:scope) (arg:expr) (sv:string) (ss:list stmt) (ty:ttype) : res :=
   match arg with
   | EName "." => Ok (VNil, sc)
   | _ =>
     '(argv, sc0) <- ev sc arg ;;
-    let restore (sc':scope) : scope :=
-      let sc1 := match sget sv sc0 with Some v => sset sv v sc' | None => sc' end in
-      match sget "." sc0 with Some v => sset "." v sc1 | None => sc1 end in
+    let finish (sc':scope) : outcome scope :=
+      sc1 <- after_iteration transform_scopevar sv (sget sv sc0) sc' ;;
+      Ok (match sget "." sc0 with Some v => sset "." v sc1 | None => sc1 end) in
     match argv with
     | VNil => Panic
     | VList xs | VSet xs =>
         match ty with
         | TyNone => Panic
-        | TySet => '(out, sc1) <- transform_loop set_transform_appender sv ss xs [] sc0 ;; Ok (VSet out, restore (sdel sv sc1))
-        | TyOther => '(out, sc1) <- transform_loop list_transform_appender sv ss xs [] sc0 ;; Ok (VList out, restore (sdel sv sc1))
+        | TySet => '(out, sc1) <- transform_loop set_transform_appender sv ss xs [] sc0 ;; sc2 <- finish sc1 ;; Ok (VSet out, sc2)
+        | TyOther => '(out, sc1) <- transform_loop list_transform_appender sv ss xs [] sc0 ;; sc2 <- finish sc1 ;; Ok (VList out, sc2)
         end
     | VMap m =>
         if negb (String.eqb sv ".")
         then
           '(out, sc1) <- transform_loop AppAlways sv ss (map (fun kv => internal_pair (fst kv) (snd kv)) m) [] sc0 ;;
-          Ok (match ty with TySet => VSet out | _ => VList out end, restore (sdel sv sc1))
+          sc2 <- finish sc1 ;;
+          Ok (match ty with TySet => VSet out | _ => VList out end, sc2)
         else
-          '(r, sc1) <- eval_transform_stmts ss (sset sv argv sc0) ;; Ok (r, restore (sdel sv sc1))
+          '(r, sc1) <- eval_transform_stmts ss (sset sv argv sc0) ;; sc2 <- finish sc1 ;; Ok (r, sc2)
     | _ =>
-        '(r, sc1) <- eval_transform_stmts ss (sset sv argv sc0) ;; Ok (r, restore (sdel sv sc1))
+        '(r, sc1) <- eval_transform_stmts ss (sset sv argv sc0) ;; sc2 <- finish sc1 ;; Ok (r, sc2)
     end
   end.
 
@@ -437,8 +450,8 @@ Definition eval_binexpr (sc:scope) (op:binop) (lhs rhs:expr) (sv:string) : res :
           | None => Panic
           | Some f =>
               '(r, sc2) <- apply_efun f sc1 l sv rhs ;;
-              let sc3 := sdel sv sc2 in
-              Ok (r, match sget sv sc1 with Some old => sset sv old sc3 | None => sc3 end)
+              sc3 <- after_iteration where_flatten_scopevar sv (sget sv sc1) sc2 ;;
+              Ok (r, sc3)
           end
       end
   | Some SUnknown => Unmodelled
